@@ -514,6 +514,19 @@ pub fn f5() -> Fragment {
             extra.push(single(vec![f.clone(), get(use_.clone())]));
             extra.push(single(vec![get(use_), f]));
         }
+        // literals that are validated where they are consumed (HTTP status), reaching that place
+        // in place, through a declaration, an alias chain and a parameter
+        for n in [0u64, 99, 100, 200, 599, 600, 741, 999, 65535, 65536, 65736] {
+            let c = |st: E| E::Content(vec![(Meta::Status, st)], Some(Box::new(o.clone())));
+            extra.push(single(vec![get(c(E::Num(n)))]));
+            extra.push(single(vec![let_("s", E::Num(n)), get(c(var("s")))]));
+            extra.push(single(vec![let_("s", E::Num(n)), let_("t", var("s")), get(c(var("t")))]));
+            extra.push(single(vec![fun("failure", &["s"], c(var("s"))), get(app("failure", vec![E::Num(n)]))]));
+            extra.push(single(vec![
+                fun("failure", &["s"], c(var("s"))),
+                get(op(Op::Range, vec![app("failure", vec![E::Num(n)]), c(E::Num(200))])),
+            ]));
+        }
         // in a URI, in the parameters and as the range of a transfer
         let f = fun("at", &["item"], E::Uri(vec![Seg::Lit("a".into()), Seg::Var(Box::new(var("item")))], None));
         extra.push(single(vec![f, Stmt::Res(rel(app("at", vec![prop("id", num())]), vec![xfer(Method::Get, E::Content(vec![], None))]))]));
@@ -583,6 +596,19 @@ pub fn f5() -> Fragment {
         fun("g", &["b"], obj(vec![prop("p", var("a")), prop("q", var("b"))])),
         fun("f", &["a"], app("g", vec![var("a")])),
         get(content(app("f", vec![str_()]))),
+    ]);
+    // a parameter used below a rec (not in the innermost evaluation scope) of a function that is
+    // called from a function whose own parameter has the same name
+    all_orders(vec![
+        fun("inner", &["x"], E::Rec("r".into(), Box::new(obj(vec![prop("v", var("x")), prop("k", arr(var("r")))])))),
+        fun("outer", &["x"], obj(vec![prop("i", app("inner", vec![num()])), prop("o", var("x"))])),
+        get(content(app("outer", vec![str_()]))),
+    ]);
+    all_orders(vec![
+        fun("inner", &["x"], obj(vec![prop("deep", E::Rec("r".into(), Box::new(obj(vec![prop("w", E::Rec("s".into(), Box::new(obj(vec![prop("v", var("x")), prop("k", arr(var("s")))]))))])))), prop("flat", var("x"))])),
+        fun("middle", &["x"], obj(vec![prop("m", app("inner", vec![E::Prim(Prim::Bool)])), prop("x", var("x"))])),
+        fun("outer", &["x"], obj(vec![prop("i", app("middle", vec![num()])), prop("o", var("x"))])),
+        get(content(app("outer", vec![str_()]))),
     ]);
     // nested applications with the same parameter name at every level
     all_orders(vec![
@@ -669,6 +695,11 @@ fn rec_bodies(holes: &[E]) -> Vec<E> {
         for h2 in holes {
             out.push(obj(vec![prop("p", h1.clone()), prop("q", arr(h2.clone()))]));
         }
+    }
+    // the right-hand side is directly a rec (its binder used or not) around the mention
+    for h in holes {
+        out.push(E::Rec("z".into(), Box::new(obj(vec![prop("p", h.clone()), prop("q", arr(var("z")))]))));
+        out.push(E::Rec("z".into(), Box::new(obj(vec![prop("p", h.clone())]))));
     }
     // a nested rec before / after the mention that may close a cycle
     for h in holes {
@@ -1229,6 +1260,33 @@ pub fn f8() -> Fragment {
                     Stmt::Use("../../b/types.oal".into(), Some("other".into())),
                     let_("v", obj(vec![prop("one", qvar("one", "x")), prop("two", qvar("two", "x")), prop("other", qvar("other", "x"))])),
                 ],
+            },
+        ],
+    });
+    // a module reachable along two import paths (diamond) and imported under two qualifiers,
+    // with uses of its declarations inside it
+    programs.push(Program {
+        modules: vec![
+            Module {
+                name: "main.oal".into(),
+                stmts: vec![
+                    Stmt::Use("mid.oal".into(), Some("mid".into())),
+                    Stmt::Use("lib.oal".into(), Some("lib".into())),
+                    Stmt::Use("lib.oal".into(), Some("again".into())),
+                    get(content(obj(vec![
+                        prop("a", qvar("lib", "item")),
+                        prop("b", qvar("mid", "wrap")),
+                        prop("c", qvar("again", "items")),
+                    ]))),
+                ],
+            },
+            Module {
+                name: "mid.oal".into(),
+                stmts: vec![Stmt::Use("lib.oal".into(), Some("lib".into())), let_("wrap", obj(vec![prop("w", qvar("lib", "item"))]))],
+            },
+            Module {
+                name: "lib.oal".into(),
+                stmts: vec![let_("item", obj(vec![prop("id", num())])), let_("items", arr(var("item"))), let_("pair", obj(vec![prop("l", var("item")), prop("r", var("items"))]))],
             },
         ],
     });
